@@ -561,6 +561,34 @@ package hclsyntax
 //@ loopall invariant srcBytes: forall q *byte :: { deref(q) } existed(q) ==> deref(q) == old(deref(q))
 //@ loop 2 invariant lastTok: len(p.peeker.Tokens) >= 1 ==> p.peeker.NextIndex <= len(p.peeker.Tokens) && lastRange == p.peeker.Tokens[p.peeker.NextIndex - 1].Range
 
+// ---- the token list handed to the template parser (unit U11f, C15) ----
+// verif:unit U11f props=C15
+// parseTemplateParts always ends its token list with the end token; the two rewriting passes
+// (flush-heredoc trimming, melding of adjacent literals) keep it last - so the template parser's
+// representation invariant holds where it is constructed. (parseTemplateParts repeats the clauses of
+// the (*parser) template, which a function with its own contract does not inherit.)
+// verif:func (*parser).parseTemplateParts
+//@ nosafety
+//@ requires p.peeker != nil && len(p.peeker.IncludeNewlinesStack) >= 1
+//@ ensures depth: len(p.peeker.IncludeNewlinesStack) == old(len(p.peeker.IncludeNewlinesStack))
+//@ ensures samePeeker: p.peeker == old(p.peeker)
+//@ ensures srcBytes: forall q *byte :: { deref(q) } existed(q) ==> deref(q) == old(deref(q))
+//@ ensures endTok: ret0 != nil && fresh(ret0) && len(ret0.Tokens) >= 1 && typeis(ret0.Tokens[len(ret0.Tokens) - 1], ptr(templateEndToken))
+//@ loopall invariant p.peeker == old(p.peeker) && len(p.peeker.IncludeNewlinesStack) == atentry(len(p.peeker.IncludeNewlinesStack))
+//@ loopall invariant srcBytes: forall q *byte :: { deref(q) } existed(q) ==> deref(q) == old(deref(q))
+
+// verif:pred endsWithEnd(parts *templateParts) = parts != nil && len(parts.Tokens) >= 1 && typeis(parts.Tokens[len(parts.Tokens) - 1], ptr(templateEndToken))
+// verif:func flushHeredocTemplateParts
+//@ nosafety
+//@ requires parts != nil
+//@ ensures keep: len(parts.Tokens) == old(len(parts.Tokens)) && (forall j int :: { parts.Tokens[j] } 0 <= j && j < len(parts.Tokens) ==> parts.Tokens[j] == old(parts.Tokens[j]))
+//@ loopall invariant keep: len(parts.Tokens) == old(len(parts.Tokens)) && (forall j int :: { parts.Tokens[j] } 0 <= j && j < len(parts.Tokens) ==> parts.Tokens[j] == old(parts.Tokens[j]))
+// verif:func meldConsecutiveStringLiterals
+//@ nosafety
+//@ requires endsWithEnd(parts)
+//@ ensures endsWithEnd(parts)
+//@ loop 1 invariant endsWithEnd(parts) && 1 <= i
+
 // ---- the template token parser never indexes out of range (unit U11e, C15) ----
 // verif:unit U11e props=C15
 // Representation invariant of the template parser: the position is inside the token list and the
@@ -568,9 +596,8 @@ package hclsyntax
 // parseIf / parseFor (the first and last part of each branch) is in range, for every token
 // sequence. Not covered here (assumed away, "nosafety nil panic"): nil tokens / nil expressions
 // inside tokens, and the two "should never happen" panics, which depend on how parseTemplateParts
-// builds the token list. The precondition of parseRoot at its one call site (parseTemplateInner:
-// parseTemplateParts always appends the end token, the two rewriting passes keep it last) is an
-// open obligation, not a proved one.
+// builds the token list. The precondition of parseRoot at its one call site (parseTemplateInner) is
+// proved from unit U11f above.
 // verif:pred tpWF(p *templateParser) = p != nil && 0 <= p.pos && p.pos < len(p.Tokens) && typeis(p.Tokens[len(p.Tokens) - 1], ptr(templateEndToken))
 // verif:func (*templateParser).Peek
 //@ nosafety nil
